@@ -114,11 +114,29 @@ UNRELATED = [
 ]
 
 
-def with_unrelated(spec):
+# an unrelated user class may be called like a type yatiml handles itself
+UNRELATED_NAMESAKES = [
+    {'name': 'Path', 'kind': 'plain',
+     'params': [{'name': 'zunrelated_path_id', 'type': 'int'}]},
+    {'name': 'Date', 'kind': 'plain',
+     'params': [{'name': 'zunrelated_date_id', 'type': 'int'}]},
+    {'name': 'String', 'kind': 'plain',
+     'params': [{'name': 'zunrelated_str_id', 'type': 'int'}]},
+]
+# (not 'str' / 'date': the generated module would then derive its str-based
+# classes from the namesake, which is no unrelated class any more)
+
+
+def with_unrelated(spec, namesakes=False):
     s2 = copy.deepcopy(spec)
-    s2['classes'] = s2['classes'] + copy.deepcopy(UNRELATED)
+    extra = copy.deepcopy(UNRELATED)
+    if namesakes:
+        have = {c['name'] for c in s2['classes']}
+        extra += [c for c in copy.deepcopy(UNRELATED_NAMESAKES)
+                  if c['name'] not in have]
+    s2['classes'] = s2['classes'] + extra
     if 'order' in s2:
-        s2['order'] = s2['order'] + ['ZUnrelatedA', 'ZUnrelatedB']
+        s2['order'] = s2['order'] + [c['name'] for c in extra]
     return s2
 
 
@@ -271,6 +289,14 @@ def run_case(ctx, spec, nspec, style, seed, only=None):
         if other[0] != 'nofn':
             cmp(ctx, 'extra_classes', base, other,
                 dict(case, t='extra_classes'), 'document %r' % text[:200])
+        if len(text) % 3 == 0:
+            s3 = with_unrelated(spec, namesakes=True)
+            _, other, _ = load_outcome(s3, text)
+            if other[0] != 'nofn':
+                ctx.count('namesake_classes_cases')
+                cmp(ctx, 'extra_classes_named_like_builtin_types', base,
+                    other, dict(case, t='extra_classes'),
+                    'document %r' % text[:200])
     # 4 container rotation
     if only in (None, 'container_swap'):
         s4, ch = map_types(spec, rot_type)
